@@ -337,6 +337,54 @@ func c07Session(ctx *simrt.Ctx, model *layered, targets []*c07target, op *simrt.
 				ctx.Logf("page %s %x f=%d n=%d %s", tg.name, prefix, flags, len(got), simrt.DigestOf(fmtPairs(got)))
 			}
 		}
+		// A request may continue after a key whose entry is gone by now (removed
+		// between two page requests): the page then starts at the next live entry in
+		// the direction of the listing. Continuation keys that exist in no layer,
+		// one in every gap of the listing.
+		if enc != 0 {
+			for i := range want {
+				K := want[i].k + "\x00"
+				if _, src := model.lookup(K); src != "" && src != "absent" {
+					continue
+				}
+				if _, inBase := model.base[K]; inBase {
+					continue
+				}
+				var exp []kvPair
+				for _, p := range want {
+					if (dirI == 1 && p.k > K) || (dirI == 0 && p.k < K) {
+						exp = append(exp, p)
+					}
+				}
+				for _, size := range []int{1, 2, 0} {
+					page := tg.list(prefix, []byte(K), int32(size), flags)
+					e := exp
+					if size > 0 && len(e) > size {
+						e = e[:size]
+					}
+					var got []kvPair
+					for _, raw := range page {
+						if enc == 1 {
+							var kv types.KeyValue
+							if err := types.Decode(raw, &kv); err != nil {
+								return ctx.Violate("paging-mismatch", sigBase+"/undecodable", "%s ListWithKey entry %x does not decode: %v", tg.name, raw, err)
+							}
+							got = append(got, kvPair{string(kv.Key), kv.Value})
+						} else {
+							got = append(got, kvPair{k: string(raw)})
+						}
+					}
+					ok := len(got) == len(e)
+					for j := 0; ok && j < len(e); j++ {
+						ok = got[j].k == e[j].k && (enc != 1 || bytes.Equal(got[j].v, e[j].v))
+					}
+					if !ok {
+						return ctx.Violate("paging-mismatch", sigBase+"/continuation-after-absent-key", "%s List(prefix=%x, key=%x (an entry that exists in no layer), count=%d, flags=%d):\n got  %s\n want %s", tg.name, prefix, K, size, flags, fmtPairs(got), fmtPairs(e))
+					}
+					ctx.Probe("continuation_after_absent_key")
+				}
+			}
+		}
 	}
 	return nil
 }
